@@ -10,7 +10,7 @@
    of A is rustc's and the allocator's: observed by E3 (addresses of every reference + runtime hooks). *)
 From Coq Require Import List NArith Permutation.
 From Truc.Model Require Import Layout Builder Ir Gen Exec Ops.
-From Truc.Proofs Require Import ExecP Holds.
+From Truc.Proofs Require Import ExecP Holds Life Chain.
 From Truc.Current Require Runtime.
 Import ListNotations.
 
@@ -42,7 +42,21 @@ Qed.
 End C07.
 Print Assumptions C07_no_fault.
 
-(* conversions: see C05 (the statement there concludes `= Ok`) *)
+(* conversions: see C05 (the statement there concludes `= Ok`).  And over a whole life - creation in any
+   variant, any number of conversions (complete forms), any reads and writes in between, the final Drop -
+   no access of any step is a breach: *)
+Theorem C07_whole_life_no_fault : forall ds TI rt A cap, rt_ok rt = true ->
+  forall (stages : list stage) P vals b v,
+  layout_ok ds TI A cap P -> chain_ok ds TI A cap P stages -> holds ds TI cap A P vals b ->
+  layout_ok ds TI A cap (last_data P stages) ->
+  exists bf d r dropped, chain_run ds TI rt A cap b stages = Ok (bf, d, r) /\
+                         op_drop ds TI rt A cap v (last_data P stages) bf = Ok (ONone, dropped).
+Proof.
+  intros ds TI rt A cap RT stages P vals b v LP Hc H LL.
+  destruct (chain_then_drop ds TI rt A cap RT stages P vals b v LP Hc H LL) as (bf & d & r & dropped & E1 & E2 & _).
+  eauto 6.
+Qed.
+Print Assumptions C07_whole_life_no_fault.
 
 Theorem C07_current : rt_ok Runtime.exec_rt = true.
 Proof. reflexivity. Qed.
